@@ -137,7 +137,17 @@ def build_graph(case):
         elif kind == "unionref":
             for j, _ in edges:
                 G[api].add(names[j])
-            cls[i] = type(nm, (xo.UnionRef,), {"_reftypes": [cls[j] for j, _ in edges]})
+            body_ = {"_reftypes": [cls[j] for j, _ in edges]}
+            if nd.get("meth"):
+                # a method of the union (dispatched on the member): without extra arguments (meth == 1) or with one; every
+                # member class brings its implementation in its own extra sources
+                margs = [] if nd["meth"] == 1 else [xo.Arg(xo.Float64, name="s")]
+                body_["_methods"] = [xo.Method(c_name=f"vf_m{i}", args=margs, ret=xo.Arg(xo.Float64))]
+                for j, _ in edges:
+                    mn_ = cls[j].__name__
+                    cls[j]._extra_c_sources = list(getattr(cls[j], "_extra_c_sources", [])) + [
+                        f"/*gpufun*/ double {mn_}_vf_m{i}({mn_} obj{', double s' if margs else ''}){{ (void) obj; return 1.0; }}"]
+            cls[i] = type(nm, (xo.UnionRef,), body_)
         elif kind in ("hybrid", "ehybrid"):
             fields = {"x": xo.Int8} if kind == "hybrid" else {}  # ehybrid: a HybridClass without fields
             for fi, (j, mode) in enumerate(edges):
@@ -253,6 +263,8 @@ def run_case(case):
     labels |= {f"n_{n}", f"closure_{min(len(clo), 8)}"}
     for nm in clo:
         labels.add("kind:" + kinds[nm])
+    if any(nd_.get("meth") and nd_.get("kind_eff") == "unionref" and names[i_] in clo for i_, nd_ in enumerate(case["nodes"])):
+        labels.add("union_with_method")
     if cyclic:
         labels.add("cyclic")
     if len(set(roots)) < len(roots):
@@ -398,6 +410,8 @@ def cases(draw, tier):
             targets = draw(st.lists(st.integers(0, i - 1), min_size=k, max_size=k))
             edges = [[t, draw(st.sampled_from(["direct", "base", "base", "ref", "arr"] if nodes[t]["kind"] == "array" else ["direct", "direct", "ref", "arr"]))] for t in targets]
         nodes.append({"kind": kind, "edges": edges})
+        if kind == "unionref" and draw(st.integers(0, 1)):
+            nodes[-1]["meth"] = draw(st.sampled_from([1, 1, 2]))
     declared = []
     nd = draw(st.sampled_from([0, 0, 1, 1, 2, 3]))
     for _ in range(nd):
